@@ -132,12 +132,12 @@ let run_read (name : string) (root : int) (src : source) (want_reenc : bool) : s
       | Some l -> Buffer.add_string out (" ws:" ^ String.concat "," (List.map string_of_n l)));
      let ud = List.sort compare (List.map (fun (k, v) -> hexs k ^ "=" ^ hexs v) rd.rd_user_data) in
      Buffer.add_string out (" ud:" ^ String.concat "," ud);
-     let rec loop rd (asts : wire list) n =
+     let rec loop rd (asts : (rnode * wire) list) n =
        if n > 200000 then (Buffer.add_string out " end:toomany"; None) else
        match reader_read sizes fuel loopk false rd with
        | RdRecord (rd', w) ->
          Buffer.add_string out (" r:" ^ dump_root sc rootn rd'.rd_rec);
-         loop rd' (w :: asts) (n + 1)
+         loop rd' ((rd.rd_rec, w) :: asts) (n + 1)
        | RdEndOfFrame _ -> Buffer.add_string out " end:eof-frame"; None
        | RdEnd -> Buffer.add_string out " end:eos"; Some (List.rev asts)
        | RdErr (trunc, e) -> Buffer.add_string out (" end:" ^ (if trunc then "trunc" else errname e)); None in
@@ -159,7 +159,11 @@ let run_read (name : string) (root : int) (src : source) (want_reenc : bool) : s
                 let nr = int_of_n nrec in
                 let rec split i l acc = if i = 0 then (List.rev acc, l) else
                     (match l with x :: r -> split (i - 1) r (x :: acc) | [] -> (List.rev acc, [])) in
-                let (mine, rest) = split nr asts [] in
+                let (minep, rest) = split nr asts [] in
+                let mine = List.map snd minep in
+                let (_, oks) = frame_check sizes tree fl st minep in
+                let nok = List.length (List.filter (fun b -> b) oks) in
+                Buffer.add_string out (Printf.sprintf " wok:%d/%d" nok (List.length oks));
                 let (st', bytes) = frame_encode tree fl st mine in
                 Buffer.add_string out (Printf.sprintf " f:%d:%d:%d" (int_of_n fl) nr (List.length content));
                 let (_, tr) = frame_encode_trace tree fl st mine in
